@@ -372,7 +372,19 @@ var dynTemplates = map[string][]dynTemplate{
 }
 
 // genHammerScript: a stateless decorated script whose every evaluation calls all 15 helpers.
-func genHammerScript(r *core.Rand) dscript {
+func genHammerScript(r *core.Rand) dscript { return genHammerScriptX(r, false) }
+
+// echoTemplates: calls whose value spells the request's host (an address literal resolves to itself, a name to what
+// the table gives it — genHammerEnv(echo) gives every name addresses no other request has)
+var echoTemplates = []dynTemplate{
+	func(r *core.Rand) call { return call{h: "dnsResolveEx", args: []arg{aHost()}} },
+	func(r *core.Rand) call { return call{h: "dnsResolveEx", args: []arg{dyn(pHost())}} },
+	func(r *core.Rand) call { return call{h: "dnsResolveEx", args: []arg{dyn("", pHost(), "")}} },
+}
+
+// genHammerScriptX: echo = every leaf returns a string that spells the request's host, so that an evaluation that
+// picked up another caller's arguments gives a visibly different answer.
+func genHammerScriptX(r *core.Rand, echo bool) dscript {
 	var body []stmt
 	x := 0
 	add := func(c call) {
@@ -396,14 +408,31 @@ func genHammerScript(r *core.Rand) dscript {
 			add(ts[(first+i)%len(ts)](r))
 		}
 	}
+	echoWire := map[string]bool{}
+	if echo {
+		for i, n, first := 0, r.Range(1, 3), r.Intn(len(echoTemplates)); i < n; i++ {
+			c := echoTemplates[(first+i)%len(echoTemplates)](r)
+			echoWire[strings.Join(c.wire(), ",")] = true
+			add(c)
+		}
+	}
 	core.Shuffle(r, body)
 	for i := range body { // renumber in the order of the text
 		body[i].x = i
 	}
 	nGlob := len(body)
+	var echoes []int
+	for i, s := range body {
+		if echoWire[strings.Join(s.e.c.wire(), ",")] {
+			echoes = append(echoes, i)
+		}
+	}
 	var build func(d int) *tree
 	build = func(d int) *tree {
 		if d == 0 || r.Chance(10) {
+			if echo {
+				return &tree{k: 'G', x: core.Pick(r, echoes), asStr: true}
+			}
 			if r.Chance(85) {
 				return &tree{k: 'G', x: r.Intn(nGlob), asStr: true}
 			}
@@ -439,6 +468,28 @@ func genHammerScript(r *core.Rand) dscript {
 
 func genHammerCase(r *core.Rand, callers, rounds, own, shared int) hammerCase {
 	d := genHammerScript(r)
+	env, mkReq := genHammerEnv(r, false)
+	c := hammerCase{Kind: "poolh", DS: d.wire(), Script: d.js(), Env: env, Callers: callers}
+	for rho := 0; rho < rounds; rho++ {
+		var rd hammerRound
+		for j := 0; j < shared; j++ {
+			rd.Shared = append(rd.Shared, mkReq(rho, 250+j, j))
+		}
+		for k := 0; k < callers; k++ {
+			var o []reqT
+			for j := 0; j < own; j++ {
+				o = append(o, mkReq(rho, k, j))
+			}
+			rd.Own = append(rd.Own, o)
+		}
+		c.Rounds = append(c.Rounds, rd)
+	}
+	return c
+}
+
+// genHammerEnv: own addresses, a resolver table that grows with the requests, and the request generator: request
+// (rho, k, j) has a host no other request of the run has.  echo = every name resolves, to addresses of its own.
+func genHammerEnv(r *core.Rand, echo bool) (envT, func(rho, k, j int) reqT) {
 	env := envT{Table: map[string][]string{}, MyIPs: []string{}, MyIPsEx: []string{}}
 	for i, n := 0, r.Intn(3); i < n; i++ {
 		env.MyIPs = append(env.MyIPs, genValidIP(r, 85))
@@ -446,7 +497,16 @@ func genHammerCase(r *core.Rand, callers, rounds, own, shared int) hammerCase {
 	for i, n := 0, r.Intn(4); i < n; i++ {
 		env.MyIPsEx = append(env.MyIPsEx, genValidIP(r, 50))
 	}
+	uniq := 0
 	resolves := func(name string) {
+		if echo && strings.HasPrefix(name, "c") {
+			uniq++
+			env.Table[name] = []string{fmt.Sprintf("100.%d.%d.%d", uniq>>16&255, uniq>>8&255, uniq&255)}
+			if r.Chance(40) {
+				env.Table[name] = append(env.Table[name], fmt.Sprintf("2001:db8:ee::%x", uniq))
+			}
+			return
+		}
 		switch r.Intn(4) {
 		case 0:
 		case 1:
@@ -484,20 +544,5 @@ func genHammerCase(r *core.Rand, callers, rounds, own, shared int) hammerCase {
 			fmt.Sprintf("/%s?r=%d&k=%d&j=%d", core.Pick(r, []string{"", "index.html", "a/b", "path.with.dots/file.js"}), rho, k, j)
 		return reqT{URL: u}
 	}
-	c := hammerCase{Kind: "poolh", DS: d.wire(), Script: d.js(), Env: env, Callers: callers}
-	for rho := 0; rho < rounds; rho++ {
-		var rd hammerRound
-		for j := 0; j < shared; j++ {
-			rd.Shared = append(rd.Shared, mkReq(rho, 250+j, j))
-		}
-		for k := 0; k < callers; k++ {
-			var o []reqT
-			for j := 0; j < own; j++ {
-				o = append(o, mkReq(rho, k, j))
-			}
-			rd.Own = append(rd.Own, o)
-		}
-		c.Rounds = append(c.Rounds, rd)
-	}
-	return c
+	return env, mkReq
 }
